@@ -7,15 +7,18 @@ from gindom import to_driver  # noqa: F401
 from props import c12
 
 
+TABLE_KINDS = ('singleton_retry', 'finalizer')
+
+
 def compare(case, impl, model):
-  if case.get('_kind') == 'singleton_retry':
+  if case.get('_kind') in TABLE_KINDS:
     return None
   return gindom.compare(case, impl, model)
 
 
 def tally(stats, case, impl):
-  if case.get('_kind') == 'singleton_retry':
-    stats['singleton_retry'] = stats.get('singleton_retry', 0) + 1
+  if case.get('_kind') in TABLE_KINDS:
+    stats[case['_kind']] = stats.get(case['_kind'], 0) + 1
     return
   c12.tally(stats, case, impl)
 
@@ -35,7 +38,9 @@ ASSUMPTIONS = ['observers are the ones listed in the property (config_str is cov
 EXPLANATION = ('Lean theorems about State.clear (totality, pristine fields, observational freshness for every observer '
                'of the model) + differential run + fresh-interpreter comparison of the post-clear tail.')
 
-CONST_NAMES = ['X', 'd.X', 'e.d.X', 'Y', 'd.Y', 'q.Z', 'gin.REQUIRED']   # the last only in interactive mode
+# 'gin.REQUIRED' only in interactive mode; the other names under `gin.` are ordinary user constants that happen to live in
+# Gin's namespace: a full clear drops them like any other
+CONST_NAMES = ['X', 'd.X', 'e.d.X', 'Y', 'd.Y', 'q.Z', 'gin.REQUIRED', 'gin.tf.X', 'gin.Z', 'gin.d.Y']
 
 
 def gen_case(rng):
@@ -224,8 +229,87 @@ def run_retry_case(case):
   return {'out': [], 'facts': facts}
 
 
+# objects that only Gin holds (a cached singleton, a bound value no call has consumed, a constant's value) and whose
+# finalizer calls a configurable, leaving a parameter to Gin: clear_config drops them, and when it returns there is no
+# operative record all the same (CPython finalizes an object the moment its last reference goes); a finite table on
+# the real code.  [A bound value that a call has consumed is not in the table: the operative record holds it too.]
+FINALIZER_CASES = [{'dom': 'gin', '_kind': 'finalizer', 'holder': h, 'clear': cl, 'scope': sc, 'bound': bd, 'n': n,
+                    'finalize': fz, 'ops': []}
+                   for h in ('singleton_cfg', 'singleton_api', 'bound_value', 'constant')
+                   for cl in (False, True) if not (h == 'constant' and not cl)
+                   for sc, bd, n, fz in (('', True, 1, False), ('a', False, 2, True), ('a/b', True, 2, False), ('', False, 1, True))]
+
+
+def run_finalizer_case(case):
+  import core
+  gin = core.fresh_gin()
+  released, failed = [], []
+  g = {'__name__': 'fz', 'gin': gin, 'released': released, 'failed': failed, 'SCOPE': case['scope']}
+  exec('def release(handle="?", grace=5):\n  return handle, grace\n'  # pylint: disable=exec-used
+       'class Res:\n'
+       '  def __init__(self, name="main"):\n    self.name = name\n'
+       '  def __del__(self):\n'
+       '    try:\n'
+       '      if SCOPE:\n'
+       '        with gin.config_scope(SCOPE):\n          release(handle=self.name)\n'   # `grace` is left to Gin
+       '      else:\n        release(handle=self.name)\n'
+       '      released.append(self.name)\n'
+       '    except BaseException as e:\n      failed.append(repr(e))\n'
+       'def consumer(res=None, other=None):\n  return getattr(res, "name", None), getattr(other, "name", None)\n'
+       'def probe(w=1):\n  return w\n', g)
+  g['release'] = gin.configurable(g['release'])
+  res_cls = gin.external_configurable(g['Res'], module='fz')   # the class itself stays undecorated
+  consumer = gin.configurable(g['consumer'])
+  probe = gin.configurable(g['probe'])
+  keys = ['pool', 'a/pool'][:case['n']]
+  facts = {}
+  try:
+    if case['bound']:
+      gin.bind_parameter((case['scope'] + '/' if case['scope'] else '') + 'fz.release.grace', 30)
+    holder = case['holder']
+    if holder == 'singleton_cfg':
+      gin.parse_config(''.join(f'{k}/gin.singleton.constructor = @fz.Res\n' for k in keys) +
+                       ''.join(f'fz.consumer.{p} = @{k}/gin.singleton()\n' for p, k in zip(('res', 'other'), keys)))
+      facts['consumed'] = list(consumer())
+    elif holder == 'singleton_api':
+      for k in keys:
+        gin.config.singleton_value(k, res_cls)
+    elif holder == 'bound_value':
+      for p in ('res', 'other')[:case['n']]:
+        gin.bind_parameter('fz.consumer.' + p, g['Res'](p))
+    else:
+      for i in range(case['n']):
+        gin.constant('fz.c%d.RES' % i, g['Res']('c%d' % i))
+    probe()
+    del released[:]      # (temporaries of the set-up)
+    facts['alive_before'] = not released and not failed
+    facts['record_before'] = gin.operative_config_str() != ''
+    if case['finalize']:
+      gin.finalize()
+    gin.clear_config(clear_constants=case['clear'])
+    facts['released'] = len(released)
+    facts['finalizer_failed'] = list(failed)
+    facts['operative'] = gin.operative_config_str()
+    facts['config'] = gin.config_str()
+    facts['locked'] = gin.config.config_is_locked()
+    cached = []
+    for k in keys:
+      try:
+        gin.config.singleton_value(k)
+        cached.append(k)
+      except ValueError:
+        pass
+    facts['cached'] = cached
+    facts['probe'] = probe()
+    facts['operative_after_probe'] = gin.operative_config_str()
+  except BaseException as e:  # pylint: disable=broad-except
+    facts['error'] = f'{type(e).__name__}: {e}'[:300]
+  return {'out': [], 'facts': facts}
+
+
 def gen_cases(rng, tier, boost=1):
   yield from RETRY_CASES
+  yield from FINALIZER_CASES
   n = (700 if tier == 'quick' else 15000) * boost
   for _ in range(n):
     yield gen_case(rng)
@@ -234,6 +318,8 @@ def gen_cases(rng, tier, boost=1):
 def run_impl(case):
   if case.get('_kind') == 'singleton_retry':
     return run_retry_case(case)
+  if case.get('_kind') == 'finalizer':
+    return run_finalizer_case(case)
   out = gindom.run_impl(case)
   ops = case['ops']
   ntail = case.get('_ntail')
@@ -269,6 +355,20 @@ def oracle(case, impl):
     if 'error' in f or f.get('first') != 'failed' or f.get('second') != {'url': 'sqlite://', 'port': 1} or not f.get('same_object'):
       return (f'a singleton whose constructor failed ({case["fail"]}), then clear_config={case["clear"]}, then a working '
               f'configuration under the same scope name {case["key"]!r}: {f}')
+    return None
+  if case.get('_kind') == 'finalizer':
+    f = impl['facts']
+    shown = {k: v for k, v in case.items() if k not in ('dom', 'ops', '_kind')}
+    if 'error' in f:
+      return f'finalizer case {shown}: {f["error"]}'
+    if not f['alive_before'] or not f['record_before']:
+      return None      # the set-up did not get there: nothing to judge
+    if f['operative'] != '':
+      return f'finalizer case {shown}: operative record after clear_config: {f["operative"]!r}'
+    if f['config'] != '' or f['locked'] or f['cached']:
+      return f'finalizer case {shown}: not pristine after clear_config: {f}'
+    if 'w = 1' not in f['operative_after_probe'] or 'release' in f['operative_after_probe'] or f['probe'] != 1:
+      return f'finalizer case {shown}: a call after clear_config records {f["operative_after_probe"]!r}'
     return None
   why = refmodel.check_history(case, impl, {'locked', 'config', 'constants', 'registry', 'clear'})
   if why:
@@ -306,6 +406,8 @@ def oracle(case, impl):
 def nontrivial(case, impl):
   if case.get('_kind') == 'singleton_retry':
     return True
+  if case.get('_kind') == 'finalizer':
+    return bool(impl['facts'].get('released'))
   n = 0
   for op, res in zip(case['ops'], impl['out']):
     if op['op'] == 'clear':
@@ -316,7 +418,7 @@ def nontrivial(case, impl):
 
 
 def shrink(case):
-  if case.get('_kind') == 'singleton_retry':
+  if case.get('_kind') in TABLE_KINDS:
     return
   ops = case['ops']
   ntail = case.get('_ntail', 0)
